@@ -491,7 +491,7 @@ PROPS["C18"] = {
         J(c18 + "Knapsack", n=3, maxw=6, maxv=9, maxW=5),
         J(c18 + "Knapsack", n=2, maxw=6, maxv=9, maxW=5, breaker=1),
         J(c18 + "Knapsack", n=0), J(c18 + "Knapsack", n=1),
-        J(c18 + "Knapsack", n=5, maxw=3, maxv=10, maxW=6, cfg={"MaxPaths": 60000000, "Witnesses": 4}),
+        J(c18 + "Knapsack", n=5, enum=1, cfg={"MaxPaths": 60000000, "Witnesses": 4}),
         J(c18 + "SubsetSum", n=3, maxv=6, maxM=8, map_order="insertion", covers=["overflow entry"]),
         J(c18 + "SubsetSum", n=2, maxv=6, maxM=8, map_order="two", covers=["overflow entry"]),
         J(c18 + "SubsetSum", n=2, maxv=6, maxM=8, breaker=1, map_order="insertion"),
@@ -508,7 +508,7 @@ PROPS["C18"] = {
         J(c18 + "Cliques", n=5, map_order="two", cfg={"MaxPaths": 60000000}),
         J(c18 + "Cliques", n=3, map_order="rotations"),
     ],
-    "bounds": {"quick": "Knapsack: 0..3 items with symbolic weights 0..6 and values 1..9, limit symbolic 0..5, and 5 items with weights 0..3, values 1..10, limit 0..6 (long enough for table entries to share a backing array) (items heavier than the limit, equal weights/values, empty input), optional arbitrary tie-breaker; FindDpSolvers/Best/BestAllowMinOverflow: 0..3 items with symbolic values 1..6, limit symbolic 0..8, overflow allowed or not, optional arbitrary tie-breaker, map iteration forward (3 items) and forward/reversed (2 items); GetMaximalCliques: all undirected simple graphs on 1..4 vertices (each edge a symbolic boolean), node-map iteration forward and reversed; all compared with brute force over all subsets evaluated branch-free",
+    "bounds": {"quick": "Knapsack: 0..3 items with symbolic weights 0..6 and values 1..9, limit symbolic 0..5, and, enumerated rather than symbolic, 5 items with weights from {1,2,3}, values from {1,10} and limit 6 or 7 (long enough for table entries to share a backing array) (items heavier than the limit, equal weights/values, empty input), optional arbitrary tie-breaker; FindDpSolvers/Best/BestAllowMinOverflow: 0..3 items with symbolic values 1..6, limit symbolic 0..8, overflow allowed or not, optional arbitrary tie-breaker, map iteration forward (3 items) and forward/reversed (2 items); GetMaximalCliques: all undirected simple graphs on 1..4 vertices (each edge a symbolic boolean), node-map iteration forward and reversed; all compared with brute force over all subsets evaluated branch-free",
                "thorough": "4 items, 5 vertices, every rotation of the map iteration order for the small cases"},
     "outside": ["more items / vertices", "directed or self-loop graphs", "map iteration orders other than those enumerated (Go promises none; forward, reversed and rotations are explored)"],
     "assumptions": ["weights non-negative and values positive as in the property", "the tie-breaker is an arbitrary function of the candidate lengths (uninterpreted)"],
